@@ -23,14 +23,15 @@ try:
         t = subprocess.run("cd %s && /venv/bin/python -m pytest -q -p no:cacheprovider tests 2>&1 | tail -1" % D, shell=True,
                            capture_output=True, text=True).stdout.strip()
         meta["suite_with_change"] = t
-        d0 = subprocess.run("cd /tmp && PYTHONPATH=/repo /venv/bin/python %s/demo.py" % dst, shell=True, capture_output=True, text=True)
-        d1 = subprocess.run("cd /tmp && PYTHONPATH=%s /venv/bin/python %s/demo.py" % (D, dst), shell=True, capture_output=True, text=True)
+        d0 = subprocess.run("cd /tmp && PYTHONPATH=/repo timeout 300 /venv/bin/python %s/demo.py" % dst, shell=True, capture_output=True, text=True)
+        # a demo that does not terminate with the change (e.g. a parent cycle) counts as failing: exit status 124
+        d1 = subprocess.run("cd /tmp && PYTHONPATH=%s timeout 300 /venv/bin/python %s/demo.py" % (D, dst), shell=True, capture_output=True, text=True)
         meta["demo_exit_unchanged"] = d0.returncode
         meta["demo_exit_with_change"] = d1.returncode
         meta["demo_output_with_change"] = (d1.stdout + d1.stderr)[-400:]
         meta["checks"] = {}
         for p in props:
-            c = subprocess.run("PYVC_REPO=%s /verif/check %s --tier quick" % (D, p), shell=True, capture_output=True, text=True)
+            c = subprocess.run("PYVC_REPO=%s timeout 5400 /verif/check %s --tier quick" % (D, p), shell=True, capture_output=True, text=True)
             lines = [l for l in c.stdout.splitlines() if not l.startswith("KNOWN-FINDING")]
             meta["checks"][p] = {"exit": c.returncode, "verdict": lines[-1][:300] if lines else ""}
             viol = [l for l in lines if l.startswith("VIOLATION")]
